@@ -255,7 +255,7 @@ Proof.
   intros kx X c fs co EX HE [k [v [rest [Ek Hk]]]] s le stop l0 HS HU Hst.
   pose proof HS as HS0. rewrite Ek in HS. destruct (RoundTrip.Spell_cons_inv P _ _ _ _ HS) as [t [tl [El [Hkt [_ _]]]]]. subst le.
   cbn [app] in HU. destruct (peek_kind_up P s t _ HU) as [s1 [H1 [HU1 _]]].
-  destruct (HE s1 (t :: tl) stop l0 HS0 HU1 Hst) as [f0 [N [s2 [H2 [HU2 HN]]]]].
+  destruct (HE s1 (t :: tl) stop l0 HS0 HU1 Hst) as [f0 [N [s2 [H2 [HU2 [HN _]]]]]].
   exists (S f0), N, s2. split; [|split; [exact HU2|split; [exact HN|]]].
   - intros f Hf. destruct f as [|f]; [lia|]. rewrite expropt_eq. unfold bind at 1. unfold starts_expression. unfold bind at 1. rewrite H1.
     unfold ret at 1. cbn [okind_in]. rewrite Hkt. unfold sestart in Hk. rewrite Hk. apply H2. lia.
@@ -439,7 +439,7 @@ Proof.
   { rewrite Hkx. clear -Hsk0. unfold sestart in Hsk0. destruct k; vm_compute in Hsk0; try discriminate Hsk0; reflexivity. }
   destruct (accept_miss P s2 x1 _ K_SEMI HU2 Hnosemi) as [s3 [H3 [HU3 _]]].
   assert (Hsme: estop (tk sm) = true) by (rewrite Hsk; reflexivity).
-  destruct (HE s3 (x1 :: tl) sm (stop :: l0) HSx0 HU3 Hsme) as [f0 [N [s4 [H4 [HU4 HN]]]]].
+  destruct (HE s3 (x1 :: tl) sm (stop :: l0) HSx0 HU3 Hsme) as [f0 [N [s4 [H4 [HU4 [HN _]]]]]].
   assert (Hsmk: kind_eqb (tk sm) K_SEMI = true) by (rewrite Hsk; reflexivity).
   destruct (expect_up P s4 sm _ K_SEMI HU4 Hsmk) as [s5 [H5 [HU5 _]]].
   exists (S (S (S f0))), (mkN P C_Return [N] (Some (mkCoord P (curfile P s5) (tp t)))), s5. split; [|split; [exact HU5|unfold mkN; cbn [strip map]; rewrite HN; reflexivity]].
@@ -513,7 +513,7 @@ Proof.
   assert (Hlpk: kind_eqb (tk lp) K_LPAREN = true) by (rewrite Hlp; reflexivity).
   destruct (expect_up P s2 lp _ K_LPAREN HU2 Hlpk) as [s3 [H3 [HU3 _]]].
   assert (Hre: estop (tk rpt) = true) by (rewrite Hrp; reflexivity).
-  destruct (HE s3 lc rpt _ HSc HU3 Hre) as [f1 [Nc [s4 [H4 [HU4 HNc]]]]].
+  destruct (HE s3 lc rpt _ HSc HU3 Hre) as [f1 [Nc [s4 [H4 [HU4 [HNc _]]]]]].
   assert (Hrpk: kind_eqb (tk rpt) K_RPAREN = true) by (rewrite Hrp; reflexivity).
   destruct (expect_up P s4 rpt _ K_RPAREN HU4 Hrpk) as [s5 [H5 [HU5 _]]].
   destruct (HT s5 lth stop l0 HSth HU5 (fun _ => Hop eq_refl)) as [f2 [Nth [s6 [H6 [HU6 HNth]]]]].
@@ -539,7 +539,7 @@ Proof.
   assert (Hlpk: kind_eqb (tk lp) K_LPAREN = true) by (rewrite Hlp; reflexivity).
   destruct (expect_up P s2 lp _ K_LPAREN HU2 Hlpk) as [s3 [H3 [HU3 _]]].
   assert (Hre: estop (tk rpt) = true) by (rewrite Hrp; reflexivity).
-  destruct (HE s3 lc rpt _ HSc HU3 Hre) as [f1 [Nc [s4 [H4 [HU4 HNc]]]]].
+  destruct (HE s3 lc rpt _ HSc HU3 Hre) as [f1 [Nc [s4 [H4 [HU4 [HNc _]]]]]].
   assert (Hrpk: kind_eqb (tk rpt) K_RPAREN = true) by (rewrite Hrp; reflexivity).
   destruct (expect_up P s4 rpt _ K_RPAREN HU4 Hrpk) as [s5 [H5 [HU5 _]]].
   destruct (HT s5 lth et _ HSth HU5 (fun E => False_ind _ (Bool.diff_false_true E))) as [f2 [Nth [s6 [H6 [HU6 HNth]]]]].
@@ -566,7 +566,7 @@ Proof.
   assert (Hlpk: kind_eqb (tk lp) K_LPAREN = true) by (rewrite Hlp; reflexivity).
   destruct (expect_up P s2 lp _ K_LPAREN HU2 Hlpk) as [s3 [H3 [HU3 _]]].
   assert (Hre: estop (tk rpt) = true) by (rewrite Hrp; reflexivity).
-  destruct (HE s3 lc rpt _ HSc HU3 Hre) as [f1 [Nc [s4 [H4 [HU4 HNc]]]]].
+  destruct (HE s3 lc rpt _ HSc HU3 Hre) as [f1 [Nc [s4 [H4 [HU4 [HNc _]]]]]].
   assert (Hrpk: kind_eqb (tk rpt) K_RPAREN = true) by (rewrite Hrp; reflexivity).
   destruct (expect_up P s4 rpt _ K_RPAREN HU4 Hrpk) as [s5 [H5 [HU5 _]]].
   destruct (HB s5 lb stop l0 HSb HU5 Hop) as [f2 [Nb [s6 [H6 [HU6 HNb]]]]].
@@ -596,7 +596,7 @@ Proof.
   assert (Hlpk: kind_eqb (tk lp) K_LPAREN = true) by (rewrite Hlp; reflexivity).
   destruct (expect_up P s4 lp _ K_LPAREN HU4 Hlpk) as [s5 [H5 [HU5 _]]].
   assert (Hre: estop (tk rpt) = true) by (rewrite Hrp; reflexivity).
-  destruct (HE s5 lc rpt _ HSc HU5 Hre) as [f2 [Nc [s6 [H6 [HU6 HNc]]]]].
+  destruct (HE s5 lc rpt _ HSc HU5 Hre) as [f2 [Nc [s6 [H6 [HU6 [HNc _]]]]]].
   assert (Hrpk: kind_eqb (tk rpt) K_RPAREN = true) by (rewrite Hrp; reflexivity).
   destruct (expect_up P s6 rpt _ K_RPAREN HU6 Hrpk) as [s7 [H7 [HU7 _]]].
   assert (Hsmk: kind_eqb (tk sm) K_SEMI = true) by (rewrite Hsk; reflexivity).
